@@ -219,6 +219,48 @@ def _id_run(src, psrc):
         return 'raised ' + type(e).__name__, None
 
 
+# ---- (1d) type patterns on the items of multi-node views --------------------------------------------------------------
+
+def view_type_cases():
+    """[(name, pattern thunk, target src, mode, expected)]: an item of Dict._all / MatchMapping._all / arguments._all is
+    'a Dict' / 'a MatchMapping' / 'an arguments', a Global / Nonlocal name is 'a Name' (documented implicit types): a
+    class pattern matches such an item iff the implicit type is a subclass of the class, exactly as for real nodes"""
+    from fst import match as M
+    conts = [
+        ('Dict', ast.Dict, '{a: b, **c, d: e}', None, lambda els: M.MDict(_all=els)),
+        ('MatchMapping', ast.MatchMapping, 'match s:\n    case {1: a, 2: b}: pass\n', 'case', lambda els: M.MMatchMapping(_all=els)),
+        ('arguments', ast.arguments, 'a, /, b=1, *c, d=2, **e', 'arguments', lambda els: M.Marguments(_all=els)),
+        ('Global', ast.Name, 'global x, y, z', None, lambda els: M.MGlobal(names=els)),
+        ('Nonlocal', ast.Name, 'nonlocal x, y', None, lambda els: M.MNonlocal(names=els)),
+    ]
+    types = [ast.AST, ast.expr, ast.stmt, ast.pattern, ast.Dict, ast.MatchMapping, ast.arguments, ast.Name, ast.Constant,
+             M.MAST, M.Mexpr, M.Mstmt, M.Mpattern, M.MDict, M.MMatchMapping, M.Marguments, M.MName]
+    out = []
+    for cname, implicit, src, mode, mk in conts:
+        for T in types:
+            base = T._types if issubclass(T, M.M_Pattern) else T
+            exp = issubclass(implicit, base)
+            tn = T.__name__
+            out.append((f'{cname} items vs [MQSTAR(t={tn})]', (lambda mk=mk, T=T: mk([M.MQSTAR(**{TN(0): T})])), src, mode, exp))
+            out.append((f'{cname} items vs [{tn}, MQSTAR]', (lambda mk=mk, T=T: mk([T, M.MQSTAR])), src, mode, exp))
+            out.append((f'{cname} items vs [MQSTAR, M(t={tn})]', (lambda mk=mk, T=T: mk([M.MQSTAR, M.M(**{TN(0): T})])), src, mode, exp))
+    return out
+
+
+def _view_type_run(thunk, src, mode):
+    from fst import FST
+    try:
+        if mode == 'case':
+            tgt = FST(src, 'exec').body[0].cases[0].pattern
+        elif mode == 'arguments':
+            tgt = FST(src, 'arguments')
+        else:
+            tgt = FST(src)
+        return thunk().match(tgt) is not None
+    except Exception as e:      # noqa: BLE001
+        return 'raised ' + type(e).__name__
+
+
 # ---- (2) ------------------------------------------------------------------------------------------------------------
 
 def constructor_cases():
@@ -377,6 +419,14 @@ def sweep(ctx):
             fail(f'C17|structural|equal-not-identical-leaf-{what}|{cls}',
                  f'{name}: a pattern with equal but not identical leaf objects gives {got}, expected {exp}',
                  {'kind': 'views', 'family': 'prim', 'index': i, 'name': name})
+    for i, (name, thunk, src, mode, exp) in enumerate(view_type_cases()):
+        ctx.count(('viewtype', name))
+        got = _view_type_run(thunk, src, mode)
+        if got != exp:
+            cls = 'raised' if isinstance(got, str) else 'wrong-accept' if got else 'wrong-reject'
+            fail(f'C17|virtual-field|{name.split(" ")[0]}-item-type-pattern|{cls}',
+                 f'{name} on {src!r}: match gives {got}, issubclass(implicit item type, pattern class) is {exp}',
+                 {'kind': 'views', 'family': 'viewtype', 'index': i, 'name': name})
     for i, (name, kind, src, psrc, exp) in enumerate(identifier_list_cases()):
         ctx.count(('idlist', name))
         got = _id_run(src, psrc)
@@ -423,6 +473,9 @@ def replay(ctx, w):
     if fam == 'falsy':
         name, pat, tgt, exp = falsy_cases()[i]
         got = _m(pat, tgt)
+    elif fam == 'viewtype':
+        name, thunk, src, mode, exp = view_type_cases()[i]
+        got = _view_type_run(thunk, src, mode)
     elif fam == 'idlist':
         name, kind, src, psrc, e0 = identifier_list_cases()[i]
         got, exp = _id_run(src, psrc), (e0, e0)
